@@ -167,20 +167,22 @@ def main():
     rng = Rng(f"{prop}-{seed}")
     notes = []
     try:
-        if hasattr(spec, "translate"):
-            spec.translate()
-        # ---------------- 1. prove
-        if args.no_proof:
-            proof = dict(ok=True, obligations=0, discharged=0, failed=[], theorems=[], checker_cmd="skipped (--no-proof)", wall_s=0)
-            notes.append("proof step skipped by --no-proof (development run)")
-        else:
-            proof = common.prove(prop, spec.MODULES, driver=getattr(spec, "DRIVER", None))
-        if args.tier == "thorough" and not args.no_proof and proof["ok"]:
-            ok, log, wall = common.leanchecker(spec.MODULES)
-            notes.append(f"leanchecker on {spec.MODULES}: {'ok' if ok else 'FAILED'} in {wall:.0f}s")
-            if not ok:
-                proof["ok"] = False
-                proof["failed"].append("leanchecker: " + log[-400:])
+        # translate + build + audit touch lean/.lake and the generated sources: one check at a time (common.build_lock)
+        with common.build_lock():
+            if hasattr(spec, "translate"):
+                spec.translate()
+            # ---------------- 1. prove
+            if args.no_proof:
+                proof = dict(ok=True, obligations=0, discharged=0, failed=[], theorems=[], checker_cmd="skipped (--no-proof)", wall_s=0)
+                notes.append("proof step skipped by --no-proof (development run)")
+            else:
+                proof = common.prove(prop, spec.MODULES, driver=getattr(spec, "DRIVER", None))
+            if args.tier == "thorough" and not args.no_proof and proof["ok"]:
+                ok, log, wall = common.leanchecker(spec.MODULES)
+                notes.append(f"leanchecker on {spec.MODULES}: {'ok' if ok else 'FAILED'} in {wall:.0f}s")
+                if not ok:
+                    proof["ok"] = False
+                    proof["failed"].append("leanchecker: " + log[-400:])
         # ---------------- 2. correspondence + oracle
         findings = common.load_findings(prop)
         cases = load_corpus(prop)
